@@ -205,7 +205,7 @@ impl CellDesc {
     }
 
     pub fn robot(&self) -> KinematicsWithShape {
-        KinematicsWithShape { kinematics: self.kinematics(), body: self.body() }
+        assemble(self.kinematics(), self.body())
     }
 
     /// Reference link poses in the world.
@@ -350,4 +350,26 @@ pub fn pairs_ref(dist: &BTreeMap<(usize, usize), f64>, table: &SafetyDesc) -> (B
         }
     }
     (hit, boundary)
+}
+
+/// A robot with shape holding exactly this kinematic stack and this body. It is built through the public constructor (so
+/// the harness does not depend on the struct having only its two public fields) with checking switched off and a
+/// placeholder body, and the real stack and body are then installed through the public fields: whatever the object
+/// remembers from its construction must not outlive those assignments.
+pub fn assemble(kinematics: Arc<dyn Kinematics>, body: RobotBody) -> KinematicsWithShape {
+    let dummy = || Mesh::boxed([-0.01; 3], [0.01; 3], 1).to_parry();
+    let mut robot = KinematicsWithShape::with_safety(
+        cell_params(),
+        Constraints::new([-1.0; 6], [1.0; 6], 0.0),
+        [dummy(), dummy(), dummy(), dummy(), dummy(), dummy()],
+        dummy(),
+        nalgebra::Isometry3::identity(),
+        dummy(),
+        nalgebra::Isometry3::identity(),
+        vec![],
+        SafetyDistances::standard(CheckMode::NoCheck),
+    );
+    robot.kinematics = kinematics;
+    robot.body = body;
+    robot
 }
